@@ -500,7 +500,7 @@ func writeReplayFile(path string, c *CheckCfg, h HarnessCfg, v symx.Violation, t
 			}
 			r.Bytes[in.Name] = bs
 		case in.Kind == "str":
-			val, ok := v.Model[in.Name]
+			val, ok := v.Model[in.Vars[0]]
 			if !ok {
 				r.Strs[in.Name] = "s!" + in.Name
 			} else if s, isLit := litOf[val]; isLit {
@@ -513,7 +513,9 @@ func writeReplayFile(path string, c *CheckCfg, h HarnessCfg, v symx.Violation, t
 			n, _ := strconv.Atoi(in.Kind[eq+1:])
 			r.Choices[in.Name] = n
 		default:
-			r.Inputs[in.Name] = v.Model[in.Name]
+			if len(in.Vars) == 1 {
+				r.Inputs[in.Name] = v.Model[in.Vars[0]]
+			}
 		}
 	}
 	b, _ := json.MarshalIndent(r, "", " ")
